@@ -1,3 +1,3 @@
-from . import common_py
+from . import common_py, problem_py
 
-FRONT_ENDS = {"common": common_py}
+FRONT_ENDS = {"common": common_py, "problem": problem_py}
